@@ -262,3 +262,19 @@ PROPS["C13"] = dict(
     modelled="write sequences of ingestTableFromBlocks/insertBlock, commit (commit_cmd.go), commitMergeResult/createMergeCommit, ObjectReceiver.saveTable/IndexTable, Prune — their ORDER is extracted from the source",
     assumptions=["each objects.Store / ref.Store call is atomic and durable (badger, SQLite): a crash is a prefix of the call sequence", "in-process stores stand in for badger/SQLite in the quick and thorough tiers"],
 )
+
+PROPS["C16"] = dict(
+    registered=True,
+    level_text="Kernel-checked for the ingest worker pool as a small-step system: for any number of workers and EVERY schedule, no block or row is lost or duplicated (invariant over schedule prefixes), every completing schedule yields the input's row count and block set (= the one-worker result after ordering by offset), completion is reachable; "
+               "the unguarded variant is proved to lose an update. The critical section and the error-channel capacity are facts regenerated from the source. Runtime side: the harness is built with -race and run with seeded yields at the shared-state touch points, 1..16 workers, GOMAXPROCS 1/2/4/16, injected store errors and a hang watchdog.",
+    level_note=LEVEL_NOTE + "PARTIAL: the Go memory model, scheduler and channel implementation are not modelled; the race detector can exhibit a failing schedule but not exclude one. Only the ingest pool is modelled; the differ and merger goroutine pipelines are exercised (C04/C05 runs) but not modelled; double-fault channel behaviour is out of the property's single-error clause.",
+    lean_modules=["WrglModel.Props.C16"],
+    race=True, env={"GORACE": "halt_on_error=1"},
+    quick_n=48, thorough_n=600,
+    rule="ingest of tables with 2..13 blocks (thorough: up to 80) with 1..16 workers, GOMAXPROCS in {1,2,4,16}, seeded random Gosched/sleep at the shared-state touch points (verif hook), "
+         "1 in 6 with a store error injected into one worker; the harness binary is built with -race (GORACE=halt_on_error=1), a 60 s watchdog catches hangs; result compared with the "
+         "one-worker run and with the Lean pool model under a schedule shipped with the case; non-trivial = >=2 effective workers and >=2 blocks; distinct = distinct (op, input)",
+    modelled="pkg/ingest/inserter.go: the worker pool of insertBlock (receive, save, publish to rowsCount/asyncBlocks), sortBlocks' re-ordering by offset; the critical section is an extracted fact",
+    assumptions=["the Go memory model, scheduler and channel implementation are not modelled: a data race can only be exhibited by the race detector (failing-schedule search), not excluded by it",
+                 "diff and merge pipelines are exercised concurrently by C04/C05's runs but their goroutine structure is not modelled here"],
+)
